@@ -42,7 +42,7 @@ SOURCES = ['dtn://s1/', 'dtn://s1/a', 'dtn://s2/', 'ipn:9.1', 'ipn:9.2']
 
 def cases(tier, seed):
     out = []
-    count = 50000 // 40 if tier == 'thorough' else 64
+    count = 200000 // 40 if tier == 'thorough' else 64
     per = 40 if tier == 'thorough' else 14
     for idx in range(count):
         out.append(dict(id='hist-%d' % idx, seed=seed * 100003 + idx, count=per, long=(idx % 16 == 0)))
